@@ -65,10 +65,33 @@ def patched(symbolic_pi=None):
                 if hit is not None and hit[0] is v:
                     saved.append((d, n, v))
                     d[n] = hit[1]
+    _STACK.append(saved)
     try:
         yield shim
     finally:
+        _STACK.pop()
         for d, n, v in saved:
+            d[n] = v
+
+
+_STACK = []
+
+
+@contextlib.contextmanager
+def unpatched():
+    """inside patched(): temporarily give the repository modules their real numpy / scipy / helpers back (numeric evaluation
+    of helper atoms through the real helper while a symbolic run is in progress)"""
+    if not _STACK:
+        yield
+        return
+    saved = _STACK[-1]
+    current = [(d, n, d[n]) for d, n, v in saved]
+    for d, n, v in saved:
+        d[n] = v
+    try:
+        yield
+    finally:
+        for d, n, v in current:
             d[n] = v
 
 
